@@ -158,6 +158,12 @@ def run_core(ctx, opts=("d",), force=False):
                         mlines.append("emit %s/%s %d %d %s" % (gid, o, 0 if B.OPTSETS[o]["noast"] else 1, 1 if B.OPTSETS[o]["inline"] else 0, P.undef_bits(nodes)))
                         if o == "d":
                             mlines.append("opt %s/d" % gid)
+                            try:
+                                mlines.append("link %s/d %s" % (gid, P.raw_to_model(P.parse_dump(r["raw"]))))
+                                oi["link_want"] = "ptx=%s acts=%s %s" % (ptx if ptx < len(names) else "-",
+                                                                          ",".join(str(actmap[k]) for k in sorted(actmap)), sexp)
+                            except (P.ConvError, KeyError):
+                                pass
                 except P.ConvError as e:
                     oi["conv_err"] = str(e)
             ginfo["opts"][o] = oi
@@ -199,6 +205,10 @@ def run_core(ctx, opts=("d",), force=False):
                     ireqs.append((cid, key, -1, True, size, width, seq))
                     mlines.append("run %s/%s %s 1 1 0 0 %d %s" % (gid, o, cid, FUEL, ";".join(",".join(map(str, B.runes_of(i))) for i in seq)))
                     meta[cid] = dict(g=gid, o=o, kind="history", memo=True, inputs=seq, entry=0, size=size, width=width)
+                # every printer of the syntax tree on the same history (C05): entry -3
+                cid = "%s/%s/hp" % (gid, o)
+                ireqs.append((cid, key, -3, True, -1, "uint32", inputs))
+                meta[cid] = dict(g=gid, o=o, kind="history-printers", memo=True, inputs=inputs, entry=0, size=-1, width="uint32")
                 # the same history with DisableMemoize (C06: memoisation is invisible on a reused parser too)
                 cid = "%s/%s/hn" % (gid, o)
                 ireqs.append((cid, key, -1, False, -1, "uint32", inputs))
@@ -225,6 +235,7 @@ def run_core(ctx, opts=("d",), force=False):
                 oi["emit"] = mres.get(("emit", "%s/%s/%d%d" % (gid, o, 0 if B.OPTSETS[o]["noast"] else 1, 1 if B.OPTSETS[o]["inline"] else 0)))
                 if o == "d":
                     oi["opt"] = mres.get(("opt", "%s/d" % gid))
+                    oi["link"] = mres.get(("link", "%s/d" % gid))
                 if oi.get("compiles"):
                     oi["nils"] = bt.nils((gid, o))
                 # call sites in the emitted code: with or without the failure branch (CheckAlwaysSucceeds)
